@@ -1,6 +1,11 @@
 import LinOp.C05.Model
 import LinOp.C05.Proofs
 import LinOp.C05.ShapeProofs
+import LinOp.C05.ShapeProofs2
+import LinOp.C05.ProofsGaussC09
+import LinOp.C05.ProofsClamp
+import LinOp.C05.ModelFlat
+import LinOp.Generated.C05Overrides
 import LinOp.C05.ProofsKron5
 import LinOp.C05.ProofsGauss2
 import LinOp.Core.Bridge
@@ -445,5 +450,176 @@ the patched behaviour (the general statement is `batchRepeat_shape`; Block OVER 
 theorem rep_slq_partial :
     shapes (.rep .slq [] [2]) [2] .absent true true = (.shape [], .shape [2]) ∧
     shapes (.rep .slq [3] [2, 1]) [2, 3] (.mat 2) true false = (.shape [2, 3, 2], .shape [2, 3]) := by decide
+
+/-! ### Extension session 5: wrappers interleaved in any order, Cat, batch-broadcast right-hand sides, `inv_quad` -/
+
+/-- **Block, BatchRepeat and Cat wrappers interleaved in ANY order and to ANY depth** (`GoodAt`: leaves are the `Good`
+paths at any positive batch shape; `Block` over a path that is good at `batch ++ [k]`; `BatchRepeat` over a path good
+at its base batch shape `bb`, giving batch shape `repeatShape rp bb`; `Cat` over anything good).  In particular Block
+OVER BatchRepeat (over Block …), which `invQuadLogdet_shape` / `batchRepeat_shape` do not reach: for every number of
+columns `m > 0` and every flag combination the inverse quadratic term has shape `batch` / `batch ++ [m]`, the
+log-determinant `batch`, no unrequested term makes the call raise, and without a rhs the log-determinant is `batch`. -/
+theorem nested_wrappers_shape (p : Path) (batch : List Nat) (h : GoodAt p batch) (m : Nat) (lg red : Bool) (hm : 0 < m) :
+    (shapes p batch (.mat m) lg red).1 = .shape (if red then batch else batch ++ [m]) ∧
+    (lg = true → (shapes p batch (.mat m) lg red).2 = .shape batch) ∧
+    (shapes p batch (.mat m) lg red).2 ≠ .err ∧
+    (shapes p batch .absent true red).1 ≠ .err ∧
+    (shapes p batch .absent true red).2 = .shape batch :=
+  goodAt_shapes p batch h m lg red hm
+
+/-- satisfiable, non-trivially: BlockDiag over BatchRepeat over BlockInterleaved over the stochastic path
+(blocks 3, base batch `[2, 3]`·… repeated by `[2, 1, 1]`), and Cat over the Cholesky path. -/
+example : GoodAt (.block (.rep (.block .slq 4) [1, 3] [2, 1]) 3) [2] ∧ GoodAt (.cat .chol) [2, 5] := by
+  refine ⟨?_, .cat _ _ (.leaf _ _ .chol (by decide))⟩
+  have h : GoodAt (.rep (.block .slq 4) [1, 3] [2, 1]) (repeatShape [2, 1] [1, 3]) :=
+    .rep _ _ _ (.block _ _ _ (.leaf _ _ .slq (by decide)) (by decide) (by decide)) (by decide) (by decide)
+  exact .block _ _ _ h (by decide) (by decide)
+
+/-- `CatLinearOperator.inv_quad_logdet` returns exactly what the base-class call on the same operator returns
+(`.to(device)` keeps kind and shape of every term; `None` stays `None`), on every `Good` base path, every batch shape,
+rhs kind and flag combination that does not raise. -/
+theorem cat_is_base (p : Path) (batch : List Nat) (rhs : Rhs) (lg red : Bool)
+    (h1 : (shapes p batch rhs lg red).1 ≠ .err) (h2 : (shapes p batch rhs lg red).2 ≠ .err) :
+    shapes (.cat p) batch rhs lg red = shapes p batch rhs lg red :=
+  catPost_eq _ h1 h2
+
+/-- **Translator fact** (regenerated from /repo's source on every run, `decide +kernel`): the classes that define
+`inv_quad_logdet` are exactly the ones the shape model has a `Path` constructor for — so every other class
+(SumBatchLinearOperator, …) takes the base-class path — `inv_quad` is defined by the base class and CholLinearOperator only,
+and `CatLinearOperator.inv_quad_logdet` is `super().inv_quad_logdet(...)` followed by `.to(...)` on the non-`None` terms. -/
+theorem override_table_as_modelled :
+    LinOp.Generated.C05.definers "inv_quad_logdet" =
+      ["BatchRepeatLinearOperator", "BlockDiagLinearOperator", "BlockInterleavedLinearOperator", "CatLinearOperator",
+       "CholLinearOperator", "DiagLinearOperator", "IdentityLinearOperator", "KroneckerProductAddedDiagLinearOperator",
+       "KroneckerProductLinearOperator", "LinearOperator", "LowRankRootAddedDiagLinearOperator", "SumKroneckerLinearOperator",
+       "TriangularLinearOperator", "ZeroLinearOperator"] ∧
+    LinOp.Generated.C05.definers "inv_quad" = ["CholLinearOperator", "LinearOperator", "ZeroLinearOperator"] ∧
+    LinOp.Generated.C05.catSkeleton =
+      ["assign-super.inv_quad_logdet/3", "return-tuple-genexp/to=1/else-none=1/test-is-not-none=1"] :=
+  ⟨LinOp.Generated.C05.inv_quad_logdet_overrides_as_modelled, LinOp.Generated.C05.inv_quad_overrides_as_modelled,
+   LinOp.Generated.C05.cat_override_skeleton⟩
+
+/-- torch broadcasting of batch shapes as modelled: a shape broadcasts with itself to itself, with all-ones of the
+same length to itself, the operation is symmetric, and the result has the longer length — any shapes. -/
+theorem bcast_laws (a b : List Nat) :
+    bcast a a = some a ∧ bcast a b = bcast b a ∧ bcast a (List.replicate a.length 1) = some a ∧
+    (∀ r, bcast a b = some r → r.length = max a.length b.length) := by
+  refine ⟨bcast_self a, bcast_comm a b, ?_, ?_⟩
+  · have := bcastRev_ones a.reverse
+    simp only [List.length_reverse] at this
+    simp [bcast, this]
+  · intro r hr
+    simp only [bcast, Option.map_eq_some_iff] at hr
+    obtain ⟨r', hr', rfl⟩ := hr
+    simpa using bcastRev_length _ _ _ hr'
+
+/-- **Batch-broadcast right-hand side, consistency**: when the rhs has the operator's own batch shape the broadcast
+model `shapesB` IS the shape model `shapes` on that leaf path — every leaf, batch shape, `m`, flag combination. -/
+theorem broadcast_rhs_consistent (p : BLeaf) (batch : List Nat) (m : Nat) (lg red : Bool) :
+    shapesB p batch batch m lg red = shapes p.path batch (.mat m) lg red := by
+  cases p <;> cases lg <;> cases red <;> simp [shapesB, invQuadEntry, bcast_self, shapes, BLeaf.path]
+
+/-- **Batch-broadcast right-hand side, shapes**: (1) on the Cholesky-shortcut, Diag and Identity paths a rhs with the same
+number of batch dimensions whose batch shape `rb` broadcasts with the operator's to `bb` gives an inverse quadratic
+term of shape `bb` / `bb ++ [m]` and a log-determinant of the OPERATOR's batch shape; a different number of dimensions
+raises; (2) the stochastic branch (`logdet=True`) raises unless `rb = batch`; (3) with `logdet=False` the base class
+delegates to `inv_quad`, which broadcasts for any numbers of batch dimensions. -/
+theorem broadcast_rhs_shape (batch rb bb : List Nat) (m : Nat) (lg red : Bool)
+    (hbb : bcast batch rb = some bb) (hpos : ∀ d ∈ bb, 0 < d) (hm : 0 < m) :
+    (∀ p : BLeaf, p ≠ .slq → rb.length = batch.length →
+      (shapesB p batch rb m lg red).1 = .shape (if red then bb else bb ++ [m]) ∧
+      (lg = true → (shapesB p batch rb m lg red).2 = .shape batch)) ∧
+    (∀ p : BLeaf, p ≠ .slq → rb.length ≠ batch.length → shapesB p batch rb m lg red = bothErr) ∧
+    (rb ≠ batch → shapesB .slq batch rb m true red = bothErr) ∧
+    shapesB .slq batch rb m false red = (.shape (if red then bb else bb ++ [m]), .shape []) ∧
+    invQuadEntry batch rb m red = .shape (if red then bb else bb ++ [m]) := by
+  refine ⟨?_, ?_, ?_, ?_, ?_⟩
+  · intro p hp hl
+    cases p
+    · simp only [shapesB, hl, hbb, redIf_mat bb m red hpos hm]
+      cases lg <;> simp
+    · simp only [shapesB, hl, hbb]; cases lg <;> simp
+    · simp only [shapesB, hl, hbb]; cases lg <;> simp
+    · exact absurd rfl hp
+  · intro p hp hl
+    cases p <;> first | exact absurd rfl hp | simp [shapesB, hl]
+  · intro h; simp [shapesB, h]
+  · cases red <;> simp [shapesB, invQuadEntry, hbb]
+  · simp [invQuadEntry, hbb]
+
+/-- satisfiable with a genuinely broadcasting pair: operator batch `[2, 1]`, rhs batch `[1, 3]` → `[2, 3]`. -/
+example : bcast [2, 1] [1, 3] = some [2, 3] ∧ bcast [2, 3] [3] = some [2, 3] ∧ bcast [2] [3] = none := by decide
+
+/-- **`inv_quad` entry point**: `LinearOperator.inv_quad(rhs, reduce_inv_quad)` with a rhs of the operator's batch shape
+returns shape `batch` (reduced) or `batch ++ [m]`; it is the inverse quadratic term of `inv_quad_logdet(logdet=False)` on
+the base-class path (which delegates to it) for every rhs batch shape. -/
+theorem invQuad_entry_shape (batch rb : List Nat) (m : Nat) (red : Bool) :
+    invQuadEntry batch batch m red = .shape (if red then batch else batch ++ [m]) ∧
+    (shapesB .slq batch rb m false red).1 = invQuadEntry batch rb m red := by
+  refine ⟨by simp [invQuadEntry, bcast_self], ?_⟩
+  simp only [shapesB]
+  cases h : invQuadEntry batch rb m red <;> simp [bothErr]
+
+
+/-! ### Extension session 5 (continued): Lanczos relations by import, active clamp, row-major flattening -/
+
+/-- **SLQ is the Gauss rule of the probes, with the Lanczos relations PROVED (C09 by import)**: for every symmetric `A`
+over an ordered field, every size, budget `≥ 1` and non-zero start vector, the verified model of `lanczos_tridiag`
+(`LinOp.C09.lanczosTridiag`, tied to the source by C09's translator and correspondence) returns `Q`, `T` with
+`1 ≤ count ≤ min max_iter n`, and — unless a returned off-diagonal entry is zero (`BetaOK`, breakdown) — for ANY orthogonal
+eigendecomposition `T = V diag θ Vᵀ` (the `eigh` primitive of `lanczos_tridiag_to_diag`) the weights and nodes that
+`StochasticLQ.to_dense` uses satisfy `Σⱼ V[0,j]² θⱼ^d = uᵀ A^d u`, `u = Q e₁`, for EVERY degree `d ≤ 2·count − 1`.
+`slq_gauss_quadrature_exact` takes `QᵀQ = 1`, `QᵀAQ = T`, tridiagonality and the residual structure as hypotheses; here they
+come from `LinOp.C09.lanczos_ok` and `LinOp.C09.Props.matrix_identities_of_done`.  (The tridiagonal matrix of the SLQ path is
+produced by CG — C08's `cg_tridiag_eq_lanczos` identifies it with the Lanczos matrix; that step is still checked numerically here.) -/
+theorem slq_gauss_of_lanczos_tridiag {K : Type} [Field K] [LinearOrder K] [IsStrictOrderedRing K] {n : Nat}
+    {ops : LinOp.C09.NumOps K} {p : LinOp.C09.Params K} (hs : LinOp.C09.SqrtLaw ops)
+    {A : Matrix (Fin n) (Fin n) K} (hA : Aᵀ = A) (maxIter : Nat) (v : LinOp.C09.Vec K n)
+    (hv : LinOp.C09.fn v ⬝ᵥ LinOp.C09.fn v ≠ 0) (hg : p.guardsSingle = true) (h1 : 1 ≤ min maxIter n) :
+    ∃ o, LinOp.C09.lanczosTridiag ops p (LinOp.C09.amulOf A) maxIter v = .ok o ∧ o.count ≤ min maxIter n ∧
+      ∃ hc : 0 < o.count,
+      (LinOp.C09.BetaOK (o.count - 1) o.st →
+        ∀ (V : Matrix (Fin o.count) (Fin o.count) K) (θ : Fin o.count → K), Vᵀ * V = 1 → V * Vᵀ = 1 →
+          Matrix.of o.T = V * Matrix.diagonal θ * Vᵀ → ∀ d, d + 1 ≤ 2 * o.count →
+          ∑ j, V ⟨0, hc⟩ j * V ⟨0, hc⟩ j * θ j ^ d
+            = (Matrix.of o.Q).mulVec (Pi.single ⟨0, hc⟩ 1) ⬝ᵥ
+                (A ^ d).mulVec ((Matrix.of o.Q).mulVec (Pi.single ⟨0, hc⟩ 1))) :=
+  slq_gauss_of_lanczosTridiag hs hA maxIter v hv hg h1
+
+/-- its hypotheses hold together on a concrete real instance with two Lanczos steps and no breakdown (C09's `real_instance`). -/
+example : LinOp.C09.SqrtLaw LinOp.C09.realOps ∧ LinOp.C09.exAᵀ = LinOp.C09.exA ∧
+    LinOp.C09.fn LinOp.C09.exV ⬝ᵥ LinOp.C09.fn LinOp.C09.exV ≠ 0 ∧ LinOp.C09.exP.guardsSingle = true ∧
+    ∃ o, LinOp.C09.lanczosTridiag LinOp.C09.realOps LinOp.C09.exP (LinOp.C09.amulOf LinOp.C09.exA) 2 LinOp.C09.exV = .ok o ∧
+      o.count = 2 ∧ LinOp.C09.BetaOK (o.count - 1) o.st :=
+  ⟨LinOp.C09.real_instance.1, LinOp.C09.exA_symm, LinOp.C09.real_instance.2.2.1, LinOp.C09.real_instance.2.2.2.1,
+   LinOp.C09.real_instance.2.2.2.2.2⟩
+
+/-- **`clamp(min=1e-7)` ACTIVE in `KroneckerProductLinearOperator._logdet`** (any number of factors, positive factor
+eigenvalues): the value is `Σ_idx log(max(λ_idx, eps))` over all products `λ_idx` of factor eigenvalues — the log-determinant
+of the operator with its spectrum clamped from below; it never under-estimates `log det(⊗Aᵢ)` and is STRICTLY larger as soon
+as one product eigenvalue is below the clamp (so `kronLogdetN_eq`'s hypothesis `eps ≤ x` is necessary, not only sufficient). -/
+theorem kronLogdetN_clamped (l : List Nat) (As Qs : KMatsM ℝ l) (lams : KVecs ℝ l) (eps : ℝ)
+    (h : EigOK l As Qs lams) (hpos : KVecs.Pos l lams) :
+    kronLogdetN Real.log (fun x => max x eps) (KVecs.toLists l lams)
+      = ∑ idx : KIdx l, Real.log (max (kronEig l lams idx) eps) ∧
+    Real.log (kronAll l As).det ≤ kronLogdetN Real.log (fun x => max x eps) (KVecs.toLists l lams) ∧
+    ((∃ idx, kronEig l lams idx < eps) →
+      Real.log (kronAll l As).det < kronLogdetN Real.log (fun x => max x eps) (KVecs.toLists l lams)) :=
+  kronLogdetN_clamped_aux l As Qs lams eps h hpos
+
+/-- **Row-major flattening against flat index arithmetic**, any list of factor sizes: `KIdx.flat` is
+`i₁·(n₂⋯n_k) + flat(rest)`, it is `< n₁⋯n_k`, the leading index / the rest are recovered by `/` and `%` of the trailing
+product, and the enumeration `KIdx.all` (the order in which the model reads and writes flat tensors — `reshape(-1)` in
+`_kron_diag`, `reshape(n, -1)` / `reshape(n_rows, -1)` in `_solve`) visits exactly the flat positions `0, 1, 2, …` in order. -/
+theorem rowMajor_flat (l : List Nat) :
+    (KIdx.all l).map (KIdx.flat l) = List.range (prodL l) ∧ (KIdx.all l).length = prodL l ∧
+    (∀ idx : KIdx l, KIdx.flat l idx < prodL l) ∧
+    (∀ (n : Nat) (i : Fin n) (j : KIdx l), KIdx.flat (n :: l) (i, j) = i.1 * prodL l + KIdx.flat l j ∧
+      KIdx.flat (n :: l) (i, j) / prodL l = i.1 ∧ KIdx.flat (n :: l) (i, j) % prodL l = KIdx.flat l j) :=
+  ⟨rowMajor_is_flat l, KIdx.all_length l, KIdx.flat_lt l,
+   fun n i j => ⟨rfl, (KIdx.flat_divmod n l i j).1, (KIdx.flat_divmod n l i j).2⟩⟩
+
+/-- instance: sizes `[2, 3]`, multi-index `(1, 2)` sits at flat position `1·3 + 2 = 5`, the last of `6`. -/
+example : KIdx.flat [2, 3] ((1 : Fin 2), ((2 : Fin 3), ())) = 5 ∧ prodL [2, 3] = 6 := by decide
 
 end LinOp.C05
